@@ -5,5 +5,6 @@ CONSTANTS
   HasIds = TRUE
   PrebuiltWrapper = TRUE
   PoolLocked = FALSE
+  StaticScratch = FALSE
   MaxRuns = 1
 INVARIANT RaceFree
